@@ -231,7 +231,7 @@ class _Distributor(LinearOperator):
 
 
 class _AmplitudeMatern(Operator):
-    def __init__(self, pow_spc, scale, cutoff, loglogslope, totvol):
+    def __init__(self, pow_spc, scale, cutoff, loglogslope, totvol, posvol):
         expander = ContractionOperator(pow_spc, spaces=None).adjoint
         k_squared = makeField(pow_spc, pow_spc.k_lengths**2)
 
@@ -259,8 +259,13 @@ class _AmplitudeMatern(Operator):
         vol1 = makeField(pow_spc, vol1)
         op = vol0 + vol1*op
 
-        # std = sqrt of integral of power spectrum
-        self._fluc = op.power(2).integrate().sqrt()
+        # std = sqrt of the sum of the power in all modes but the zero-mode, in
+        # units of the volume of the position space (the harmonic transform
+        # carries a factor 1/posvol)
+        mult = pow_spc.dvol/pow_spc.harmonic_partner.scalar_dvol
+        mult[0] = 0.
+        mult = makeField(pow_spc, mult)
+        self._fluc = (mult*op.power(2)).sum().sqrt().scale(1./posvol)
         self.apply = op.apply
         self._domain, self._target = op.domain, op.target
         self._repr_str = "_AmplitudeMatern: " + op.__repr__()
@@ -646,12 +651,11 @@ class CorrelatedFieldMaker:
         prfx = self._prefix + prefix + 'loglogslope'
         loglogslope = NormalTransform(*loglogslope, prfx, 0)
 
-        totvol = 1.
-        if adjust_for_volume:
-            totvol = target_subdomain[-1].total_volume
+        posvol = target_subdomain[-1].total_volume
+        totvol = posvol if adjust_for_volume else 1.
         pow_spc = PowerSpace(harmonic_partner)
         amp = _AmplitudeMatern(pow_spc, scale, cutoff, loglogslope,
-                               totvol)
+                               totvol, posvol)
 
         self._a.append(amp)
         self._target_subdomains.append(target_subdomain)
